@@ -18,6 +18,10 @@ pub const TOKENS: &[&str] = &[
     "\\p{Emoji_Keycap_Sequence}", "\\p{ASCII}", "\\p{Any}", "\\p{ lu}", "\\p{lu}", "\\p", "\\P", "\\p{}", "\\p{Script=}", "\\p{=Lu}", "\\p{IsLu}", "\\p{Block=Basic_Latin}", "\\p{Script_Extensions=Latin}",
     "\\-", "\\/", "\\.", "\\(", "\\)", "\\[", "\\]", "\\{", "\\}", "\\|", "\\^", "\\$", "\\*", "\\+", "\\?", "\\\\", "\\a", "\\e", "\\z", "\\_", "\\ ", "\\é", "\\😀", "\\", "\\n", "\\t", "\\v", "\\f", "\\r",
     "/", ",", ":", "<", ">", "=", "!", "&", "&&", "--", "~", "#", "%", "@", "`", ";",
+    // three-digit legacy octal escapes (first digit 4-7 takes only one more digit), decimal escapes beyond u32 / u64,
+    // \q with empty alternatives next to single characters
+    "\\477", "\\400", "\\377", "\\777", "\\47", "[\\777]", "[\\400]", "\\4294967297", "\\4294967296", "\\18446744073709551617", "(a)\\4294967297", "\\99999999999",
+    "\\q{a|}", "\\q{|a}", "\\q{}", "\\q{a|b}", "[^\\q{a|}]", "[^\\q{|}]", "[^[\\q{a||b}]]", "(?i-:a)", "(?ims-:a)", "(?-i:a)", "(?i-s:a)",
 ];
 
 pub fn gen_soup(src: &mut Src, max_tokens: u32) -> Vec<u32> {
